@@ -14,6 +14,7 @@ Oracle clauses:
 """
 from checks import common
 from simkit import programs
+from simkit.loop import TickLimit
 from simkit.runner import Result
 
 PROPERTY = 'C05'
@@ -68,7 +69,15 @@ def random_case(rng, tier):
         program = programs.gen_process_program(rng, PROGRAM_CFG)
     ticks, notify, _ = common.dry_run(program)
     max_actions = 4 if tier == 'quick' else 6
-    schedule = common.gen_schedule(rng, kinds, max_actions, ticks, notify, p_listener=0.0, must=['pause', 'play'])
+    schedule = common.gen_schedule(rng, kinds, max_actions, ticks, notify, p_listener=0.12 if rng.random() < 0.5 else 0.0,
+                                   must=['pause', 'play'])
+    for action in schedule:
+        if 'on' in action and (action['act'] != 'pause' or action['on'][0] in ('paused', 'played')):
+            # only pause requests are also issued from inside listener notifications of state transitions; play and resume
+            # stay between loop callbacks, as the property quantifies (a pause issued from inside the 'played' notification
+            # legitimately leaves play() returning on a paused process)
+            action.pop('on')
+            action['at'] = rng.randint(0, ticks + 1)
     for action in schedule:
         if action['act'] == 'complete':
             # completes with the value the drive-out would use, so that the context is the same in every run
@@ -98,14 +107,27 @@ def shrink(case):
 
 def run(case):
     result = Result()
-    reference = common.reference_run(case['program'], case.get('opts'))
+    try:
+        reference = common.reference_run(case['program'], case.get('opts'))
+    except TickLimit as exc:
+        # the program issues pause/play requests itself; even without any request from outside it does not come to rest
+        result.violate('outcome_differs', 'runaway', f'the run without requests from outside does not come to rest: {exc}')
+        result.events = []
+        return result
     engine = common.new_engine(case, record_hooks=False)
     try:
         if not engine.start():
             raise RuntimeError(f'construction failed: {engine.construct_error!r}')
-        engine.run_schedule()
-        drive = engine.drive_out()
-        _oracle(engine, result, reference, drive)
+        try:
+            engine.run_schedule()
+            drive = engine.drive_out()
+        except TickLimit as exc:
+            # the uninterrupted run of this program takes a few dozen loop handles: a run that does not quiesce within
+            # thousands is not "identical to the uninterrupted run"
+            result.violate('outcome_differs', 'runaway', f'the run does not come to rest: {exc}')
+            drive = 'runaway'
+        else:
+            _oracle(engine, result, reference, drive)
         common.finish_result(engine, result)
         result.nontrivial = common.nontrivial_by_context(engine)
     finally:
